@@ -540,12 +540,13 @@ theorem chkDistinctOutputs_none {b : BuildInput} :
 
 theorem chkIdentifiers_none {b : BuildInput} :
     chkIdentifiers b = none ↔
-      ∀ nd ∈ b.nodes, (nd.kind ≠ .graph → LegalName nd.name) ∧ ∀ o ∈ nd.outputs, LegalName o := by
+      ∀ nd ∈ b.nodes, (nd.kind ≠ .graph → LegalName nd.name) ∧ (nd.kind = .graph → hasPathSep nd.name = false) ∧
+        ∀ o ∈ nd.outputs, LegalName o := by
   unfold chkIdentifiers
   rw [List.findSome?_eq_none_iff]
   refine forall_congr' fun nd => forall_congr' fun _ => ?_
   by_cases hk : nd.kind = .graph
-  · simp [hk, chkOutputNames_none]
+  · cases h0 : hasPathSep nd.name <;> simp [hk, h0, chkOutputNames_none]
   · cases h1 : isIdentifier nd.name <;> cases h2 : isKeyword nd.name <;>
       simp [hk, LegalName, h1, h2, chkOutputNames_none]
 
@@ -565,7 +566,7 @@ theorem chkIdentifiersSkipGraph_none {b : BuildInput} :
 theorem chkIdentifiersSkipGraph_of_chkIdentifiers {b : BuildInput} (h : chkIdentifiers b = none) :
     chkIdentifiersSkipGraph b = none :=
   chkIdentifiersSkipGraph_none.mpr fun nd hnd hk =>
-    ⟨(chkIdentifiers_none.mp h nd hnd).1 hk, (chkIdentifiers_none.mp h nd hnd).2⟩
+    ⟨(chkIdentifiers_none.mp h nd hnd).1 hk, (chkIdentifiers_none.mp h nd hnd).2.2⟩
 
 theorem chkNamespaceCollision_none {b : BuildInput} :
     chkNamespaceCollision b = none ↔
@@ -914,8 +915,9 @@ structure WellFormed (b : BuildInput) : Prop where
   /-- `END` is reserved -/
   notReserved : ∀ nd ∈ b.nodes, nd.name ≠ "END"
   /-- the name of every non-graph node, and every output name of EVERY node (graph nodes included),
-  is an identifier and not a keyword -/
-  legalNames : ∀ nd ∈ b.nodes, (nd.kind ≠ .graph → LegalName nd.name) ∧ ∀ o ∈ nd.outputs, LegalName o
+  is an identifier and not a keyword; the name of a graph node holds no path separator -/
+  legalNames : ∀ nd ∈ b.nodes, (nd.kind ≠ .graph → LegalName nd.name) ∧ (nd.kind = .graph → hasPathSep nd.name = false) ∧
+    ∀ o ∈ nd.outputs, LegalName o
   /-- no node declares one output name twice -/
   distinctOutputs : ∀ nd ∈ b.nodes, nd.outputs.Nodup
   /-- if some node outputs the name of a graph node `g`, the LAST node doing so is `g` itself -/
@@ -1101,7 +1103,9 @@ theorem chkIdentifiers_cfg {b e} (h : chkIdentifiers b = some e) : e.isConfig = 
   unfold chkIdentifiers at h
   obtain ⟨_, _, h'⟩ := List.exists_of_findSome?_eq_some h
   split at h'
-  · exact chkOutputNames_cfg h'
+  · split at h'
+    · cases h'; rfl
+    · exact chkOutputNames_cfg h'
   · split at h'
     · cases h'; rfl
     · split at h'
